@@ -8,6 +8,7 @@
           <order> = '+'-joined MMSIs ('_' = none): the iteration order of the set `to_be_deleted` of this operation's
                     cleanup() -- the MMSIs named come first, in this order (Model/Tracker.v trk_iter_by_hint)
           T,<ttl|N>  (tracker.ttl_in_seconds = ttl)     M  (tracker.stream_is_ordered = False)
+          I,<now>,<mmsi>,<ts|N>,<attrs>   (tracker.insert_or_update(mmsi, msg_to_track(decoded, ts)): no ordering check, no cleanup)
           L,<n>  (query n_latest_tracks)     G,<mmsi>  (query get_track)
      reply: one item per op joined by '|':
           op:     E=<exn|->;C=<calls>;D=<deliveries>;R=<returned track|N>;O=<oldest|N>;K=<ttl|N>/<ordered 0|1>;T=<tracks>
@@ -16,6 +17,7 @@
      track = mmsi/lu/attrs ('.'-joined, 'n' = None); calls = ','-joined ev~track; deliveries = ','-joined cb~ev~track
    trk_spec <ordered> <nattrs> <mmsis ','-joined> <sop>...      (C12: the log specification, expiry given)
      sop: U,<now>,<mmsi>,<ts|N>,<attrs>,<expired '+'-joined|_>   C,<now>,<expired>   P,<mmsi>   O   T,<ttl|N>   M
+          I,<now>,<mmsi>,<ts|N>,<attrs>
      reply per step: R=<rejected 0|1>;<mmsi>=<lu/attrs|N>,...
    trk_spec_exact <ordered> <ttl> <nattrs> <mmsis> <sop without expired>...   (C12 + C13: expiry computed by the spec)
    trk_ttl <T> <now> <remaining '+'-joined|_> <removed|_>         -> 0|1
@@ -65,6 +67,8 @@ let item_of (s : ostring) : item =
   | ["P"; mmsi] -> Op (OpPop (z_of_string mmsi), [])
   | ["A"; ev; cb] -> Op (OpAttach (ev_of ev, z_of_string cb), [])
   | ["D"; ev; cb] -> Op (OpDetach (ev_of ev, z_of_string cb), [])
+  | ["I"; now; mmsi; ts; attrs] ->
+    Op (OpInsertOrUpdate (z_of_string now, { m_mmsi = z_of_string mmsi; m_attrs = List.map mattr_of (split '.' attrs) }, optz ts), [])
   | ["T"; ttl] -> Op (OpSetTtl (optz ttl), [])
   | ["M"] -> Op (OpUnordered, [])
   | ["L"; n] -> QLatest (z_of_string n)
@@ -113,6 +117,8 @@ let sop_of (exact : bool) (s : ostring) : ostring sp_op * z list =
      (match rest with [e] when not exact -> zlist '+' e | [] when exact -> [] | _ -> failwith ("bad sop " ^ s)))
   | ["P"; mmsi] -> (SpPop (z_of_string mmsi), [])
   | ["O"] -> (SpOther, [])
+  | ["I"; now; mmsi; ts; attrs] ->
+    (SpInsert (z_of_string now, z_of_string mmsi, List.map sattr_of (split '.' attrs), optz ts), [])
   | ["T"; ttl] -> (SpSetTtl (optz ttl), [])
   | ["M"] -> (SpUnordered, [])
   | _ -> failwith ("bad sop " ^ s)
@@ -127,6 +133,7 @@ let spec_reply ordered na mmsis log rejected =
 
 let is_rejected ordered log = function
   | SpUpdate (now, m, _, ts) -> sp_rejected ordered m (match ts with Some t -> t | None -> now) log
+  | SpInsert (now, m, _, ts) -> sp_older (match ts with Some t -> t | None -> now) m log
   | _ -> false
 
 let () = register "trk_spec" (function
